@@ -10,8 +10,9 @@ EXPLANATION = """
 R08.1 the four chunk helpers compute exactly the specified ranges (as decision tables over canonical affine comparisons):
 match chunk [buffer_pos - mat.len(), buffer_pos); non-match chunk [reported, buffer_pos - mat.len()) iff non-empty; pre-roll
 chunk [reported, len (-) min) iff non-empty; eof chunk [reported, len) iff non-empty; get_match = get_match(aut, sid, 0,
-absolute_pos). R08.2 every Some(Ok(chunk)) return of next() takes its range r from the right helper, returns buffer()[r], and is
-preceded by buffer_reported_pos += r.len() for the same r; every non-match range starts at buffer_reported_pos so consecutive
+absolute_pos). R08.2 (one statement on the summaries of one pass through the outer loop of next(), calls and stores in order) every
+Some(Ok(chunk)) return takes its range r from the right helper evaluated for the current state, returns buffer()[r], and
+buffer_reported_pos += r.len() for the same r happens exactly once after that helper ran, with no roll / fill in between; every non-match range starts at buffer_reported_pos so consecutive
 chunks are adjacent; the match chunk is emitted only on the edge where no unreported bytes precede it; buffer_reported_pos has
 no other writer than these four and the roll adjustment. R08.3 the driver writes NonMatch bytes unchanged with write_all, hands
 (mat, bytes, wtr) of the same Match chunk to the closure, dispatches each chunk kind to its own sink only; the table variant
